@@ -2190,7 +2190,7 @@ def enumerate_pairs(target='fortran', mixed=True, par_variants=True):
     out = []
     fills = {'int': [('var', 'i1'), ('var', 'i2'), ('var', 'i3'), ('var', 'k1')],
              'real': [('var', 'r1'), ('var', 'r2'), ('var', 'r3'), ('var', 'p1')],
-             'mixed': [('var', 'r1'), ('var', 'i2'), ('var', 'i3'), ('var', 'r2')],
+             'mixed': [('var', 'i1'), ('var', 'i2'), ('var', 'r1'), ('var', 'i3')],
              'exp': [('int', 2, None), ('var', 'n2'), ('var', 'n1'), ('int', 1, None)]}
     if target != 'fortran' or not mixed:
         pass
